@@ -107,7 +107,7 @@ def lifted_table(rep, rule, method, shape, extra, modes, tg_call, tier_call, wha
                         # validate() compares the spans exactly, as floats: equal real numbers must also be computed the same way
                         from ..floatorder import FloatOrder, show as show_tree
 
-                        fo = FloatOrder(st)
+                        fo = FloatOrder(st, getattr(I, "path_facts", ()))
                         for which in ("max",):  # the start of the span is an input float in every operation that shares spans; only the end is computed
                             ta, tb = getattr(gt[which], "tree", None), getattr(v[which], "tree", None)
                             if ta is not None and tb is not None and ta[0] != "?" and tb[0] != "?" and not (fo.same(ta, tb) or (fo.le(ta, tb) and fo.le(tb, ta))):
